@@ -203,8 +203,12 @@ Tramp(clo, args, rec, st) ==
           ELSE IF r.r.t = "tailcall"
                  THEN IF st.lim.rec # NoLimit /\ rec + 1 > st.lim.rec
                         THEN R(Nil, Viol(stOut, "MaximumRecursion"))
-                        ELSE Tramp(clo, r.r.args, rec + 1,
-                                   [stOut EXCEPT !.maxrec = IF rec + 1 > @ THEN rec + 1 ELSE @])
+                        ELSE \* a tail call is a user function call: it is counted like one
+                             LET stC == [stOut EXCEPT !.calls = @ + 1]
+                             IN IF stC.lim.calls # NoLimit /\ stC.calls >= stC.lim.calls
+                                  THEN R(Nil, Viol(stC, "MaximumUDCall"))
+                                  ELSE Tramp(clo, r.r.args, rec + 1,
+                                             [stC EXCEPT !.maxrec = IF rec + 1 > @ THEN rec + 1 ELSE @])
                  ELSE R(r.r, stOut)
 
 \* body of a function: local declarations, then the result expression in tail position
